@@ -328,6 +328,73 @@ func specMsgFieldsOK(stream int, function int, waitBit int, sessionID int, nSyst
 //@   ensures len(result) == 4 && fresh(result)
 //@   ensures forall k int :: 0 <= k && k < 4 ==> result[k] == node.systemBytes[k]
 
+// Accessors of DataMessage: each returns exactly the field it names (C18: these are the "observable fields" a producer
+// must carry over). WaitBit is total on the rep invariant.
+func specWaitBitName(w int) string {
+	if w == 0 {
+		return "false"
+	}
+	if w == 1 {
+		return "true"
+	}
+	return "optional"
+}
+
+//@ func (*DataMessage).Name
+//@   property C18
+//@   ensures result == node.name
+
+//@ func (*DataMessage).StreamCode
+//@   property C18 C02
+//@   ensures result == node.stream
+
+//@ func (*DataMessage).FunctionCode
+//@   property C18 C02
+//@   ensures result == node.function
+
+//@ func (*DataMessage).WaitBit
+//@   property C18 C02
+//@   ensures result == specWaitBitName(node.waitBit)
+
+//@ func (*DataMessage).Direction
+//@   property C18
+//@   ensures result == node.direction
+
+//@ func (*DataMessage).SessionID
+//@   property C18
+//@   ensures result == node.sessionID
+
+//@ func (*DataMessage).Type
+//@   property C14 C18
+//@   ensures result == "data message"
+
+// The empty item (the zero value standing in variable positions of a list): no elements, no variables, no bytes, and
+// filling it returns it unchanged.
+//@ func NewEmptyItemNode
+//@   property C16 C07
+//@   allocates 0
+//@   ensures typeis(result, emptyItemNode)
+
+//@ func (emptyItemNode).Size
+//@   allocates 0
+//@   property C16
+//@   ensures result == 0
+
+//@ func (emptyItemNode).Variables
+//@   allocates 0
+//@   property C16 C11
+//@   ensures fresh(result) && len(result) == 0
+
+//@ func (emptyItemNode).ToBytes
+//@   allocates 0
+//@   property C16 C02 C11
+//@   ensures fresh(result) && len(result) == 0
+
+//@ func (emptyItemNode).FillVariables
+//@   allocates 0
+//@   property C09 C11
+//@   ensures result == box(node, emptyItemNode)
+
 // ---------------------------------------------------------------------------------------------
 // Item nodes: shared spec functions
 
